@@ -723,3 +723,124 @@ func iterationCanSkip(body *ssa.BasicBlock, marked map[*ssa.BasicBlock]bool) boo
 	dfs(body)
 	return skips
 }
+
+// ---------------------------------------------------------------------------
+// G7
+
+func init() {
+	register("G7", "outside comment and raw every text, object and trim token becomes a node: on the arm of the block parser's loop that a token type selects, no path gets back to the loop without appending the node of that kind (or returning an error)", runG7)
+}
+
+func runG7(p *an.Prog, r *an.Result) {
+	fn := p.Func("(parser.Config).parseTokens")
+	if fn == nil {
+		r.Bad("-", "parseTokens not found", token.NoPos, "anchor not resolved")
+		return
+	}
+	name := an.FuncName(fn)
+	kinds := []struct {
+		konst, node string
+	}{{"TextTokenType", "ASTText"}, {"ObjTokenType", "ASTObject"}, {"TrimLeftTokenType", "ASTTrim"}, {"TrimRightTokenType", "ASTTrim"}}
+	// blocks that append a node of a given AST type to a node list
+	appends := func(node string) map[*ssa.BasicBlock]bool {
+		out := map[*ssa.BasicBlock]bool{}
+		an.EachInstr(fn, func(in ssa.Instruction) {
+			c, ok := in.(*ssa.Call)
+			if !ok {
+				return
+			}
+			if b, ok := c.Call.Value.(*ssa.Builtin); !ok || b.Name() != "append" || len(c.Call.Args) != 2 {
+				return
+			}
+			// the appended element: a varargs array holding one interface made from *node
+			sl, ok := c.Call.Args[1].(*ssa.Slice)
+			if !ok {
+				return
+			}
+			al, ok := sl.X.(*ssa.Alloc)
+			if !ok || al.Referrers() == nil {
+				return
+			}
+			for _, u := range *al.Referrers() {
+				ia, ok := u.(*ssa.IndexAddr)
+				if !ok {
+					continue
+				}
+				for _, sv := range an.Stores(ia) {
+					for _, o := range an.Origins(sv, func(v ssa.Value) []ssa.Value {
+						if mi, ok := v.(*ssa.MakeInterface); ok {
+							return []ssa.Value{mi.X}
+						}
+						return an.StepValue(v)
+					}) {
+						if pt, ok := o.Type().Underlying().(*types.Pointer); ok && isNamedIn(pt.Elem(), "parser", node) {
+							out[c.Block()] = true
+						}
+					}
+				}
+			}
+		})
+		return out
+	}
+	returns := map[*ssa.BasicBlock]bool{}
+	an.EachInstr(fn, func(in ssa.Instruction) {
+		if _, ok := in.(*ssa.Return); ok {
+			returns[in.Block()] = true
+		}
+	})
+	for _, k := range kinds {
+		kc, ok := pkgConst(p, "parser", k.konst)
+		if !ok {
+			r.Bad(name, k.konst+" not found", an.FuncPos(fn), "anchor not resolved")
+			continue
+		}
+		// the arm: the true successor of `tok.Type == K`
+		var arms []*ssa.BasicBlock
+		for _, b := range fn.Blocks {
+			ifi, ok := b.Instrs[len(b.Instrs)-1].(*ssa.If)
+			if !ok {
+				continue
+			}
+			cmp, ok := ifi.Cond.(*ssa.BinOp)
+			if !ok || cmp.Op != token.EQL {
+				continue
+			}
+			for _, pair := range [][2]ssa.Value{{cmp.X, cmp.Y}, {cmp.Y, cmp.X}} {
+				c, isC := an.ConstInt(pair[1])
+				if !isC || c != kc || !isNamedIn(pair[1].Type(), "parser", "TokenType") {
+					continue
+				}
+				ld, ok := pair[0].(*ssa.UnOp)
+				if !ok {
+					continue
+				}
+				if fa, ok := ld.X.(*ssa.FieldAddr); ok && fieldName(fa) == "Type" {
+					// the token of this iteration, not a neighbour looked at ahead
+					if ia, isIA := fa.X.(*ssa.IndexAddr); isIA && !isForwardRangeIndex(ia.Index) {
+						continue
+					}
+					// only tests that are not themselves inside another token-type arm's body (the
+					// comment/raw end-tag tests look at TagTokenType and are not in this list)
+					arms = append(arms, b.Succs[0])
+				}
+			}
+		}
+		if len(arms) == 0 {
+			r.Bad(name, "no arm for "+k.konst, an.FuncPos(fn), "the rule looks for the branch taken when tok.Type == "+k.konst)
+			continue
+		}
+		marked := appends(k.node)
+		for b := range returns {
+			marked[b] = true
+		}
+		for _, arm := range arms {
+			r.Counts["token arms"]++
+			if iterationCanSkip(arm, marked) {
+				r.Bad(name, k.konst+" arm can skip its node", arm.Instrs[0].Pos(), fmt.Sprintf("a path through the %s arm returns to the loop without appending an %s: the token leaves no trace in the tree - text disappears from the output, or a trim marker has nothing in front of it to flush", k.konst, k.node))
+			} else {
+				r.OK(name, k.konst+" arm always appends an "+k.node, arm.Instrs[0].Pos(), "every path from the arm back to the loop passes the append or returns an error")
+			}
+		}
+	}
+	r.Floor("token arms", 4)
+}
